@@ -13,8 +13,14 @@ Ties (real halmos code vs extracted model vs an independent python rendering of 
       monitor installed inside the halmos process; in sync mode (the solver answers before the engine goes on)
       every test is replayed in the extracted run_test model (c16_test) on the solver replies the
       implementation saw: outputs, stuck/normal counts, exit code, who skipped the solver, final cache.
+      Invariant projects (contract T + target C, --invariant-depth 1): ONE function context fed by several
+      independent runs -- the case in which only halmos' own bookkeeping keeps the conditions of a finished run
+      alive.  The H2 monitor there also probes z3's id free list: after a forced collection a batch of fresh terms
+      is allocated before every query; one of them receiving the id of a condition of an earlier assertion query
+      of the function context still running = that id was released and now denotes something else.
 """
 import contextlib
+import inspect
 import io
 import json
 import os
@@ -36,7 +42,8 @@ PARTIAL = (
     "H2 (identifier stability: within one function context a z3 AST id never denotes two different "
     "constraints) is a hypothesis of C16_sound/C16_transparent; it is a property of z3's id allocator and "
     "CPython reference counting that the Coq model cannot express. It is only MONITORED here (L2 on real "
-    "Path objects, L3 inside real halmos runs, with forced gc between paths); C16_needs_stability_refuted "
+    "Path objects, L3 inside real halmos runs incl. invariant tests whose function context spans several runs, with forced gc "
+    "between paths and a probe of z3's id free list before every query); C16_needs_stability_refuted "
     "shows it cannot be dropped. Thread interleavings of the solver pool are covered by the event-history "
     "theorem (C16_sound, C16_transparent_any_state) but the ties run queries sequentially per context. "
     "The two semantics of C16_test_sound/_transparent (query as posed vs after refine()) are section variables related "
@@ -316,7 +323,10 @@ class Ctx:
             out = solve_end_to_end(pc)
             fut = Future()
             fut.set_result(out)
-            self.handler._solve_end_to_end_callback(fut, ex=None, path_ctx=pc, description="")
+            # the callback as handle_assertion_violation binds it; which of the optional bindings exist is not C16's subject
+            cb = self.handler._solve_end_to_end_callback
+            params = inspect.signature(cb).parameters
+            cb(fut, **{k: v for k, v in dict(ex=None, fun_info=None, path_ctx=pc, description="").items() if k in params})
         solved = os.path.exists(os.path.join(self.dd, f"{pid}.smt2"))
         res = str(out.result)
         r = {"kind": res if res in ("sat", "unsat", "unknown") else "err"}
@@ -668,11 +678,12 @@ def run(rep, tier):
             rep.fail("broken-tie", "extracted model driver does not build: " + log[-400:], case={})
     m = Model(exe) if exe else None
     r = common.rng(PID)
-    nfail = [0]
+    nfail = {}
 
     def fail(kind, what, case, **kw):
-        nfail[0] += 1
-        if nfail[0] <= 12:
+        # at most 12 reports per kind: a flood of broken-tie reports of one stage must not hide a failing input of a later one
+        nfail[kind] = nfail.get(kind, 0) + 1
+        if nfail[kind] <= 12:
             rep.fail(kind, what, case=case, **kw)
 
     pool = Pool(min(8 if tier == "quick" else 16, os.cpu_count() or 4), initializer=_quiet)
@@ -885,7 +896,7 @@ def run(rep, tier):
         trusted_base=common.TRUSTED_BASE_COMMON + ["the real z3 binary as truthful solver in the L2/L3 ties (cross-checked against enumeration in L2)", "sh + a one-line script as scripted solver in the L1 history tie"],
         assumptions=ASSUMPTIONS,
         partial=PARTIAL,
-        rule="cases: (space) every Unicode code point against \\s and str.split; (parse) solver replies: generated well-formed replies with Unicode white space / optional error line / 0-12 ids, malformed-by-construction replies, single-character mutations (model vs implementation only); (check) random id lists and core lists; (dump) query files; (history) 2-8 queries per function context over a pool of ids denoting literals, scripted solver replies (truthful with correct/empty/missing/odd cores; adversarial; id-reusing), run through the real solve_end_to_end and the real callback with cache on and off, compared step by step with the model from the implementation's own cache state and with the truth table; (tree) random condition trees built with real Path.branch/activate, every leaf serialised by Path.to_smt2 and solved by real z3, gc.collect() between paths, id->sexpr monitor; (e2e) halmos runs on fabricated bytecode projects with cache on and off: a hand-made corpus plus random projects of decision trees over three uint256 arguments whose leaves panic, get STUCK (jump to a symbolic destination) or stop; most trees contain a gadget -- a conjunction contradictory under the real mul/div and satisfiable for the uninterpreted abstraction -- above a subtree over the third argument, so that the same stored core is met again by later assertion and stuck paths in both exploration orders; sync projects (solver answers before the next path) are replayed test by test in the extracted run_test model, one project lets the solver race the engine. A history/tree/e2e case is non-trivial when at least one query is answered from the cache; parse cases unless trivially short; distinct by hash of the case",
+        rule="cases: (space) every Unicode code point against \\s and str.split; (parse) solver replies: generated well-formed replies with Unicode white space / optional error line / 0-12 ids, malformed-by-construction replies, single-character mutations (model vs implementation only); (check) random id lists and core lists; (dump) query files; (history) 2-8 queries per function context over a pool of ids denoting literals, scripted solver replies (truthful with correct/empty/missing/odd cores; adversarial; id-reusing), run through the real solve_end_to_end and the real callback with cache on and off, compared step by step with the model from the implementation's own cache state and with the truth table; (tree) random condition trees built with real Path.branch/activate, every leaf serialised by Path.to_smt2 and solved by real z3, gc.collect() between paths, id->sexpr monitor; (e2e) halmos runs on fabricated bytecode projects with cache on and off: a hand-made corpus plus random projects of decision trees over three uint256 arguments whose leaves panic, get STUCK (jump to a symbolic destination) or stop; most trees contain a gadget -- a conjunction contradictory under the real mul/div and satisfiable for the uninterpreted abstraction -- above a subtree over the third argument, so that the same stored core is met again by later assertion and stuck paths in both exploration orders; sync projects (solver answers before the next path) are replayed test by test in the extracted run_test model, one project lets the solver race the engine; invariant projects (test contract + target contract with one setter per tree, depth 1) make one function context span several independent runs, half of them without stuck leaves (a stuck path pins its conditions until the verdict), with the id monitor and the free-list probe on. A history/tree/e2e case is non-trivial when at least one query is answered from the cache; parse cases unless trivially short; distinct by hash of the case",
     )
 
 
